@@ -56,6 +56,7 @@ type Op struct {
 	Api    string `json:"api,omitempty"`
 	Ids    []int  `json:"ids,omitempty"`
 	Vals   []int  `json:"vals,omitempty"`
+	WithV  bool   `json:"withVals,omitempty"` // builder created with component values (NewBuilderWith)
 	Add    []int  `json:"add,omitempty"`
 	Rem    []int  `json:"rem,omitempty"`
 	E      int    `json:"e"`
